@@ -305,3 +305,25 @@ Qed.
 Lemma apply_permutation_identity {A} (d : A) : forall (x1 x2 : list A),
   fff_twosample_apply_permutation d x1 x2 [] [] = x1 ++ x2.
 Proof. reflexivity. Qed.
+
+(* the relabelling commutes with every per-subject map: data and first-level variances handed to
+   fff_twosample_apply_permutation are the two projections of ONE relabelled list of (value, variance) subjects *)
+Lemma store_map {A B} (f : A -> B) : forall x i v, store (map f x) i (f v) = map f (store x i v).
+Proof. intros. unfold store. rewrite map_app, firstn_map. cbn [map]. rewrite skipn_map. reflexivity. Qed.
+
+Lemma swap_map {A B} (f : A -> B) (d : A) : forall x a b, swap (f d) (map f x) a b = map f (swap d x a b).
+Proof. intros. unfold swap. rewrite !(map_nth f). rewrite !store_map. reflexivity. Qed.
+
+Lemma apply_swaps_map {A B} (f : A -> B) (d : A) : forall idx1 idx2 px n1,
+  apply_swaps (f d) (map f px) n1 idx1 idx2 = map f (apply_swaps d px n1 idx1 idx2).
+Proof.
+  induction idx1 as [|a r1 IH]; intros [|b r2] px n1; cbn [apply_swaps]; try reflexivity.
+  rewrite swap_map. apply IH.
+Qed.
+
+Lemma apply_permutation_map {A B} (f : A -> B) (d : A) : forall s1 s2 idx1 idx2,
+  fff_twosample_apply_permutation (f d) (map f s1) (map f s2) idx1 idx2
+  = map f (fff_twosample_apply_permutation d s1 s2 idx1 idx2).
+Proof.
+  intros. unfold fff_twosample_apply_permutation. rewrite map_length, <- map_app. apply apply_swaps_map.
+Qed.
